@@ -99,6 +99,8 @@ def make_near_tie_case(rng, i):
     rep = dict(REPS[rng.randrange(len(REPS))])
     if rep["rep"] == "matrices" and not rep["explicit_list"] and not gen.ghost_closed(m):
         rep["explicit_list"] = True
+    if i % 3 == 0:
+        rep = dict(HASH_REPS[rng.randrange(len(HASH_REPS))])
     return {"m": m, "cfg": cfg, "rep": rep, "pert": pert}
 
 
@@ -124,6 +126,9 @@ def make_case(rng, i):
         # 10^scale_exp; the update rule is homogeneous, so the model is unchanged and observations are divided by it
         c["scale_exp"] = rng.choice([-7, -7, -3, 6])
         c["cfg"]["intq"] = False
+    elif i % 7 == 3:
+        # colliding-hash labels: distinct state / action labels with equal hash(); policy is queried at every state
+        c["rep"] = dict(HASH_REPS[rng.randrange(len(HASH_REPS))])
     elif i % 7 == 2:
         pre = make_pre_instance(rng, c["m"])
         if pre is not None:
@@ -188,6 +193,58 @@ def magnitude_ok(case):
 
 
 # --------------------------------------------------------------------------------------------
+# label family with colliding hashes (distinct labels, equal hash): CPython has hash(-1) == hash(-2)
+# --------------------------------------------------------------------------------------------
+HASH_REPS = [
+    dict(rep="quick", labels="negint", alabels="negint", explicit_list=False, dist="dict", custom=True),
+    dict(rep="quick", labels="negtuple", alabels="str", explicit_list=True, dist="dict", custom=True),
+    dict(rep="quick", labels="negint", alabels="negtuple", explicit_list=True, dist="dict", custom=True),
+]
+
+
+def colliding_labels(kind, n, rng):
+    """n distinct labels, the first two (after the shuffle: two random abstract indices) share their hash."""
+    if kind == "negint":
+        labs = [-(i + 1) for i in range(n)]                     # -1, -2, -3, ...   hash(-1) == hash(-2) == -2
+    elif kind == "negtuple":
+        labs = [(-(i + 1), 0) for i in range(n)]                # (-1, 0), (-2, 0): equal element hashes
+    elif kind == "str":
+        labs = [f"a{i}" for i in range(n)]
+    else:
+        raise ValueError(kind)
+    if n >= 2:
+        assert labs[0] != labs[1] and (kind == "str" or hash(labs[0]) == hash(labs[1]))
+    rng.shuffle(labs)
+    return labs
+
+
+def build_any(m, rep, seed):
+    """build.build_mdp for the shared representations; a QuickTabularMDP over colliding-hash labels otherwise."""
+    rng = random.Random(seed)
+    if not rep.get("custom"):
+        return build.build_mdp(m, rng=rng, **rep)
+    from msdm.core.distributions import DictDistribution
+    from msdm.core.mdp import QuickTabularMDP
+    N, K = m["N"], m["K"]
+    sl = colliding_labels(rep["labels"], N, rng)
+    al = colliding_labels(rep["alabels"], K, rng)
+    sidx = {l: i for i, l in enumerate(sl)}
+    aidx = {l: i for i, l in enumerate(al)}
+    mdp = QuickTabularMDP(
+        next_state_dist=lambda s, a: DictDistribution({sl[t]: m["P"][sidx[s]][aidx[a]][t] / m["PD"]
+                                                       for t in range(N) if m["P"][sidx[s]][aidx[a]][t] > 0}),
+        reward=lambda s, a, ns: float(m["R"][sidx[s]][aidx[a]][sidx[ns]]),
+        actions=lambda s: tuple(al[a] for a in range(K) if m["avail"][sidx[s]][a]),
+        initial_state_dist=lambda: DictDistribution({sl[t]: m["p0"][t] / m["ID"] for t in range(N) if m["p0"][t] > 0}),
+        is_absorbing=lambda s: bool(m["abs"][sidx[s]]),
+        discount_rate=float(F(m["GN"], m["GD"])))
+    if rep["explicit_list"]:
+        mdp._state_list = list(sl)
+        mdp._action_list = list(al)
+    return build.Built(mdp=mdp, m=m, slabel=sl, alabel=al, rep="quick", explicit_list=rep["explicit_list"])
+
+
+# --------------------------------------------------------------------------------------------
 # running the real learners and projecting what they did
 # --------------------------------------------------------------------------------------------
 class _Stop(Exception):
@@ -211,7 +268,7 @@ def run_real(case, max_steps=MAXSTEPS):
     from msdm.algorithms import tdlearning as td
     m, cfg, rep = case["m"], case["cfg"], case["rep"]
     N, K = m["N"], m["K"]
-    b = build.build_mdp(m, rng=random.Random(digest(case["m"])), **rep)
+    b = build_any(m, rep, digest(case["m"]))
     if case.get("pert"):
         # near-tie family: the real MDP pays R + d * 2^-40; the model keeps the integer R (spec: "perturbed rewards")
         pert, base_reward = case["pert"], b.mdp.reward
@@ -233,7 +290,7 @@ def run_real(case, max_steps=MAXSTEPS):
     pre = None
     if case.get("pre"):
         # same labels (same label rng), other absorbing set / action sets; rewards scaled alike
-        pre = build.build_mdp(case["pre"], rng=random.Random(digest(case["m"])), **rep)
+        pre = build_any(case["pre"], rep, digest(case["m"]))
         assert pre.slabel == b.slabel and pre.alabel == b.alabel
 
     def sidx(lab):
@@ -559,6 +616,8 @@ def judge(ctx, cases, recs):
         ctx.count(f"runs_{alg}")
         if rec.get("pert"):
             ctx.count("near_tie_family_runs")
+        if c["rep"].get("custom"):
+            ctx.count("runs_with_colliding_hash_labels")
         if rec.get("call") == 2:
             ctx.count("reused_learner_second_calls")
         if rec.get("scale_exp"):
@@ -654,7 +713,8 @@ def run(ctx):
                 "state-dependent actions, gamma in {1/2,3/4,9/10,1}, PD in {2,4}, 30% with initial mass on an absorbing "
                 "state) x 4 learners x step size {0,.1,.25,.5,.75,1} x rand_choose {0,.1,.25,.5,1} x softmax_temp "
                 "{0,.5,2; expected SARSA also .02,.05,.2} x initial_q {int, float, callable table, callable by action} x episodes 1-5 x seed (incl. None) "
-                "x 7 representations; every 5th run from the near-tie family (model rewards all equal, real rewards R + d*2^-40, step "
+                "x 7 representations + 3 with colliding-hash labels (states / actions -1, -2, .. or (-1,0), (-2,0), ..: distinct, "
+                "equal hash(); every 7th run and a third of the near-tie runs; policy queried at every state); every 5th run from the near-tie family (model rewards all equal, real rewards R + d*2^-40, step "
                 "size 1 or 1/2, rand_choose 1/2 or 1, 4-8 episodes) whose returned rows hold distinct floats closer than 1e-9 "
                 "relative: the policy clause is decided on exact float ranks; every 7th run scaled by 1e-7 / 1e-3 / 1e6 "
                 "(half of them expected SARSA with softmax temperature, real temperatures down to 5e-9); every 7th run is the "
